@@ -555,6 +555,33 @@ def orphaned_local_rule(index, rep, rid, modules):
     return n
 
 
+_IO_FRONT_END = ("get_from_", "read_from_", "write_to_", "_parse_and_")
+_IO_FRONT_END_EXACT = {"yield_from_files", "get_reader", "get_writer", "get_tree_yielder", "as_string", "_format_and_write_to_stream", "_write_to"}
+
+
+def io_kwargs_rule(index, rep, rid, modules):
+    """reader / writer options travel with the call: a function that takes `**kwargs` and calls one of the I/O front
+    ends (get_from_* / read_from_* / write_to_* / _parse_and_* / yield_from_files / get_reader / get_writer /
+    get_tree_yielder / as_string / _format_and_write_to_stream) hands its `**kwargs` on - all 37 such calls in the
+    repository do; the schema-specific options (strict, multispace_delimiter, preserve_underscores ...) have no other way
+    to reach the reader."""
+    n = 0
+    for m in modules:
+        for f in index.functions_in_module(m):
+            k = f.node.args.kwarg
+            if k is None:
+                continue
+            for c in calls_in(f.node):
+                nm = call_name(c) or ""
+                if not (nm.startswith(_IO_FRONT_END) or nm in _IO_FRONT_END_EXACT):
+                    continue
+                n += 1
+                fw = any(kw.arg is None and any(isinstance(x, ast.Name) for x in ast.walk(kw.value)) for kw in c.keywords)
+                rep.check(fw, rid, f.qualname, "`%s` called without the caller's **%s" % (nm, k.arg), fn_where(f, c), "",
+                          "%s takes `**%s` and calls `%s` without handing them on: the schema-specific options the caller gave (strict / multispace_delimiter for PHYLIP, preserve_underscores, data_type ...) never reach the reader or writer, so a source in a non-default variant is misread or refused" % (f.qualname, k.arg, norm(c)[:70]))
+    return n
+
+
 def settings_clone_rule(index, rep, rid, modules):
     """A method that builds a new object of its own class from its own settings (two or more constructor arguments taken
     from self) passes ALL the constructor's options: one left out silently falls back to its default in the result."""
@@ -1480,6 +1507,7 @@ def generic_rules(prop, index, rep):
         nw += option_handed_on_rule(index, rep, rid, mods)
         nw += parameter_is_read_rule(index, rep, rid, mods)
         nw += orphaned_local_rule(index, rep, rid, mods)
+        nw += io_kwargs_rule(index, rep, rid, mods)
         nw += option_handed_down_rule(index, rep, rid, mods)
         nw += settings_clone_rule(index, rep, rid, mods)
         rep.ob(rid, "src/dendropy", "%d resolved calls in the property's modules examined" % nw, True)
